@@ -158,7 +158,8 @@ StorageWithinLimit(q) == Geq(<< MaxDiskGiB[q.cloud] * 1024, 0 >>, Bytes(q.sto))
 
 \* the packable sizes of pool p that cover the request
 Covering(p, q, need) == { c \in { x \in Pow2Mcpu : x <= 1000 * p.cores } : c >= q.cpu /\ MemCovered(c, p, need) }
-PoolCanServe(p, q, need) == Matches(p, q) /\ Covering(p, q, need) # {}
+PoolCanServe(p, q, need) ==
+  Matches(p, q) /\ \E c \in Pow2Mcpu : c <= 1000 * p.cores /\ c >= q.cpu /\ MemCovered(c, p, need)     \* Covering # {}
 
 Satisfiable(cfg, q) ==
   IF q.kind = "pool"
@@ -188,6 +189,25 @@ Ok(cfg, q, o) ==
     [] o[1] = MALFORMED -> ~WellFormed(q)             \* "cpu must be a power of two ...", "unknown machine type"
     [] OTHER            -> FALSE                      \* neither placed nor rejected (exception)
 
+\* Which clause of Ok a rejected outcome breaks (only used to label violations; the verdict is ~Ok).
+Why(cfg, q, o) ==
+  CASE o[1] = UNSAT     -> "rejected-but-satisfiable"
+    [] o[1] = MALFORMED -> "rejected-as-malformed-but-well-formed"
+    [] o[1] = PLACED    ->
+         LET coll == o[2]  cores == o[3]  mem == << o[4], o[5] >>  sto == o[6]
+         IN  IF sto < 0 \/ sto > MaxDiskGiB[q.cloud] THEN "storage-exceeds-one-disk"
+             ELSE IF sto * 1024 < CeilMiB(Bytes(q.sto)) THEN "storage-under-provisioned"
+             ELSE IF q.kind = "private"
+                  THEN IF coll # 0 \/ cfg.jp # q.cloud \/ ~HasMachine(q.cloud, q.machine) THEN "wrong-collection"
+                       ELSE "not-the-named-machine"
+             ELSE IF coll \notin DOMAIN cfg.pools THEN "wrong-collection"
+             ELSE LET p == cfg.pools[coll]
+                  IN  IF ~Matches(p, q) THEN "pool-does-not-match"
+                      ELSE IF cores < q.cpu THEN "cores-under-provisioned"
+                      ELSE IF q.tier = "" /\ ~Geq(mem, Bytes(q.mem)) THEN "memory-under-provisioned"
+                      ELSE "does-not-fit-one-worker"
+    [] OTHER -> "neither-placed-nor-rejected"
+
 (* ---------------------------------------------------------------------------------------------------- *)
 (* The bounded universe.  Level "model" is the small universe ResourceFitAlg is checked on in the quick tier,  *)
 (* "quick" / "thorough" are the universes driven through the real code.                                     *)
@@ -196,7 +216,7 @@ Pick(model, quick, thorough) == CASE Level = "model" -> model [] Level = "quick"
 CpuValid    == Pick({250, 2000, 64000}, {250, 1000, 16000, 64000},
                     {250, 500, 1000, 2000, 4000, 8000, 16000, 32000, 64000, 128000})
 CpuInvalid  == Pick({750}, {750}, {125, 750, 1500, 3000, 6000})       \* exact binary fractions that are not packable
-BoundaryCpu == Pick({1000}, {250, 1000, 16000}, {250, 500, 1000, 2000, 4000, 8000, 16000, 32000, 64000})
+BoundaryCpu == Pick({1000}, {250, 1000, 16000}, {250, 1000, 4000, 16000, 64000})
 
 \* memory amounts: a fixed spread, plus - derived from the tables - the amount at which each packable size of each
 \* worker family is exactly full, one MiB more, and one byte more
@@ -212,28 +232,30 @@ MemAmounts(cl) ==
           \cup { Amt(b * B + 1, 0, "") : b \in { x \in Boundaries(cl) : x < 2040 } }
 
 StoAmounts == Pick({Amt(0, 0, ""), Amt(10, 1, "Gi"), Amt(32769, 0, "Gi"), Amt(65537, 0, "Gi")},
-                   {Amt(0, 0, ""), Amt(10, 1, "Gi"), Amt(11, 0, "G"), Amt(32769, 0, "Gi"), Amt(65537, 0, "Gi")},
-                   {Amt(0, 0, ""), Amt(0, 0, "Gi"), Amt(1, 0, ""), Amt(1, 0, "Gi"), Amt(10, 0, "Gi"), Amt(10, 1, "Gi"),
-                    Amt(11, 0, "G"), Amt(375, 0, "Gi"), Amt(1, 50, "Ti"), Amt(32, 0, "Ti"),
-                    Amt(32769, 0, "Gi"), Amt(64, 0, "Ti"), Amt(65537, 0, "Gi"), Amt(100, 0, "T")})
+                   {Amt(0, 0, ""), Amt(10, 1, "Gi"), Amt(32769, 0, "Gi"), Amt(65537, 0, "Gi")},
+                   {Amt(0, 0, ""), Amt(1, 0, ""), Amt(10, 0, "Gi"), Amt(10, 1, "Gi"), Amt(11, 0, "G"), Amt(1, 50, "Ti"),
+                    Amt(32, 0, "Ti"), Amt(32769, 0, "Gi"), Amt(64, 0, "Ti"), Amt(65537, 0, "Gi")})
 
 \* -- sizing: one cloud, pools all preemptible with the empty label, every size combination
 SizeReqs(cl) ==
   { PoolReq(cl, cpu, "", mem, sto, TRUE, "") : cpu \in CpuValid \cup CpuInvalid, mem \in MemAmounts(cl), sto \in StoAmounts }
   \cup { PoolReq(cl, cpu, t, NoAmt, sto, TRUE, "") : cpu \in CpuValid \cup CpuInvalid, t \in Tiers, sto \in StoAmounts }
 SizePool(w) == Pool(w.cloud, w.type, w.cores, TRUE, "", w.ssd)
-SingleCores == Pick({1, 2, 16}, Pow2, Pow2)
+SingleCores == Pick({2, 16}, {1, 2, 8, 64}, Pow2)
 SizeSingles(cl) == { << SizePool(w) >> : w \in { x \in PoolWorkers : x.cloud = cl /\ x.cores \in SingleCores
                                                                   /\ (Level = "thorough" \/ x.ssd) } }
 SizePalette(cl) == { SizePool(w) : w \in { x \in PoolWorkers : x.cloud = cl /\ x.ssd /\ x.cores \in {2, 16} } }
-SizeMulti(cl) == { SetToSeq(S) : S \in { T \in SUBSET SizePalette(cl) : Cardinality(T) \in Pick({3}, {2, 3}, {2, 3}) } }
+SizeMulti(cl) == { SetToSeq(S) : S \in { T \in SUBSET SizePalette(cl) :
+                      /\ Cardinality(T) \in {2, 3}
+                      /\ (Level = "model" => Cardinality(T) = 3)
+                      /\ (Level # "thorough" /\ Cardinality(T) = 3 => Cardinality({ p.type : p \in T }) = 3) } }
 SizeSuite(cl) == [name |-> "size-" \o cl,
                   cfgs |-> SetToSeq({ Cfg(cl, ps) : ps \in SizeSingles(cl) \cup SizeMulti(cl) }),
                   reqs |-> SetToSeq(SizeReqs(cl))]
 
 \* -- matching: pools of both clouds, both preemptibilities, two labels; few sizes
 MatchPalette == { Pool(cl, TierType(cl, t), 4, pre, lab, TRUE) :
-                    cl \in Clouds, t \in {"standard", "highmem"}, pre \in BOOLEAN, lab \in {"", "a"} }
+                    cl \in Clouds, t \in {"standard", "highmem"}, pre \in BOOLEAN, lab \in Pick({""}, {"", "a"}, {"", "a"}) }
 MatchSets == { S \in SUBSET MatchPalette : Cardinality(S) \in Pick({2}, {1, 2}, {1, 2, 3}) }
 MatchReqs == { PoolReq(cl, cpu, t, Amt(1, 0, "Gi"), Amt(0, 0, ""), pre, lab) :
                  cl \in Clouds, cpu \in {1000, 8000}, t \in Tiers \cup {""}, pre \in BOOLEAN, lab \in {"", "a"} }
@@ -242,7 +264,7 @@ MatchSuite == [name |-> "match",
                reqs |-> SetToSeq(MatchReqs)]
 
 \* -- job-private: every machine type of both clouds (the other cloud's names are unknown types)
-PrivSto == Pick({Amt(0, 0, ""), Amt(32769, 0, "Gi"), Amt(65537, 0, "Gi")},
+PrivSto == Pick({Amt(0, 0, ""), Amt(32769, 0, "Gi")},
                 {Amt(0, 0, ""), Amt(1, 0, "Gi"), Amt(10, 1, "Gi"), Amt(375, 0, "G"), Amt(32, 0, "Ti"), Amt(32769, 0, "Gi"),
                  Amt(65537, 0, "Gi")},
                 {Amt(0, 0, ""), Amt(1, 0, "Gi"), Amt(10, 1, "Gi"), Amt(375, 0, "G"), Amt(32, 0, "Ti"), Amt(32769, 0, "Gi"),
